@@ -68,6 +68,24 @@ def parseStmt : Sexp → Option Stmt
   | .list [.atom "del", k] => do pure (.delete (← k.int?))
   | _ => none
 
+/-- A statement of a case: a plain statement or `INSERT … ON DUPLICATE KEY UPDATE` of one tuple. -/
+inductive DStmt where
+  | plain (st : Stmt)
+  | odku (cols : List Nat) (vals : List Src) (sets : List (Nat × Src))
+
+def parseDStmt : Sexp → Option DStmt
+  | .list [.atom "odku", .list cols, .list vals, .list sets] => do
+    let sets ← sets.mapM fun s => match s with
+      | .list [c, v] => do pure ((← c.nat?), (← parseSrc v))
+      | _ => none
+    pure (.odku (← cols.mapM Sexp.nat?) (← vals.mapM parseSrc) sets)
+  | s => (parseStmt s).map .plain
+
+/-- The INSERT half of the statement (shape hypothesis, region of a rejected tuple). -/
+def DStmt.shape : DStmt → Stmt
+  | .plain st => st
+  | .odku cols vals _ => .insert false cols [vals]
+
 def fmtVal : Val → String
   | none => "null"
   | some v => toString v
@@ -89,15 +107,20 @@ def regionOf (T : Table) (rows : List Row) (st : Stmt) : String :=
 def handle (p : List Sexp) : String :=
   match p with
   | [.list (.atom "cols" :: cols), .list (.atom "checks" :: chks), .list (.atom "stmts" :: stmts)] =>
-    match cols.mapM parseCol, chks.mapM parseChk, stmts.mapM parseStmt with
+    match cols.mapM parseCol, chks.mapM parseChk, stmts.mapM parseDStmt with
     | some cols, some chks, some stmts =>
       let T : Table := { cols := cols, checks := chks }
       -- the structural hypotheses of the theorems are evaluated on every case
-      if !T.wf || !(stmts.all (stmtWf T)) then answer "bad-case:hypotheses" else
+      if !T.wf || !(stmts.all fun d => stmtWf T d.shape) then answer "bad-case:hypotheses" else
       let (_, impl, spec, region) := stmts.foldl
-        (fun (acc : List Row × String × String × String) st =>
+        (fun (acc : List Row × String × String × String) d =>
           let (rows, impl, spec, region) := acc
-          let (rows', e) := step T rows st
+          -- ON DUPLICATE KEY UPDATE runs as the plain statement `odkuStmt` names (`stepOdku`)
+          let (st, (rows', e)) : Stmt × (List Row × Option Err) := match d with
+            | .plain st => (st, step T rows st)
+            | .odku cols vals sets =>
+              ((match odkuStmt T rows cols vals sets with | .ok st => st | .error _ => d.shape),
+               stepOdku T rows cols vals sets)
           let cls := match e with | none => "ok" | some e => fmtErr e
           let shown := isort pkLe (tableRows T rows')
           let body := cls ++ ";" ++ String.join (shown.map fmtRow) ++ ";ok="
